@@ -348,14 +348,14 @@ pub fn check(ctx: &Ctx) -> Check {
         Box::new(RandomPart {
             name: "lib-histories",
             rule: "record sequences (0..25 records, 1..3 populations) interleaving complete / partially missing / multiallelic / insufficient / exactly-sufficient records, with and without a projection target, fed through an in-memory genotype::Reader into the real site::Reader: (i) each record's contribution inside the stream equals its contribution when read alone by a fresh reader, (ii) whole == sum of parts for every split point, (iii) a permutation gives the same total and the same per-record contributions, total == reference model; non-trivial = >=3 records, >=2 classes and (no projection, or an exactly-sufficient/insufficient record directly after a projected one); the predecessor/successor class pairs are listed as labels",
-            cases: ctx.tier.pick(40_000, 600_000),
+            cases: ctx.tier.pick(40_000, 2_000_000),
             strategy: Box::new(|| strategy(25).boxed()),
             eval: Box::new(eval_lib),
         }),
         Box::new(RandomPart {
             name: "cli-concat-permute",
             rule: "the same relations on rendered VCFs through the binary: create(A++B) == create(A)+create(B) at a generated split point, a generated permutation and the reversal give the same spectrum (exact without projection, 1e-9 at --precision 12 with)",
-            cases: ctx.tier.pick(600, 6000),
+            cases: ctx.tier.pick(600, 15_000),
             strategy: Box::new(|| strategy(14).boxed()),
             eval: Box::new(eval_cli),
         }),
